@@ -58,7 +58,7 @@ def run(ctx):
         if new_a or new_s:
             for side, toks in (("async-only", new_a), ("sync-only", new_s)):
                 for t in toks:
-                    pending.append((fa_.crate, side, _uncounted(t), "C16.R1", "C16.R1/twin-diff/%s/%s/%s" % (a, side, _tok(t)),
+                    pending.append((fa_.crate, side, _uncounted(t), ("pair", a), t, (fa, fs), "C16.R1", "C16.R1/twin-diff/%s/%s/%s" % (a, side, _tok(t)),
                                     "twins diverge: %s %s appears only on the %s side of %s <-> %s (one twin was edited alone, or a "
                                     "check/constant/width differs)" % (t[0], t[1:], side.split("-")[0], a, s), fa_.loc()))
         elif oa or os_:
@@ -94,7 +94,7 @@ def run(ctx):
         if new_a or new_s:
             for side, toks in (("async-only", new_a), ("sync-only", new_s)):
                 for t in toks:
-                    pending.append((fb.fns[akeys[0]].crate, side, _uncounted(t), "C16.R1b", "C16.R1b/group-diff/%s/%s/%s" % (owner, side, _tok(t)),
+                    pending.append((fb.fns[akeys[0]].crate, side, _uncounted(t), ("group", owner), t, (fa, fs), "C16.R1b", "C16.R1b/group-diff/%s/%s/%s" % (owner, side, _tok(t)),
                                     "twin types diverge: %s %s appears only on the %s side of the methods of %s" % (
                                         t[0], t[1:], side.split("-")[0], owner), loc))
         else:
@@ -103,14 +103,36 @@ def run(ctx):
     ctx.floor("C16.R1b", "type-level groups", ng, 20)
     # a token that is new on BOTH sides of the same crate is a consistent two-sided edit that merely sits in differently
     # shaped regions (e.g. inlined in the async method, in a helper on the sync side): it cancels out
+    # Uncounted tokens cancel when they are new on both sides anywhere in the crate. Counted tokens (multiplicities) look
+    # "new on both sides" after ANY change of one count (x1 vs x2), so they cancel only within one entry, and only when the
+    # frozen table already held that token on both sides and both counts moved by the same amount.
+    def _count(t):
+        t = tuple(str(x) for x in t)
+        return int(t[-1][1:]) if t and t[-1].startswith("x") and t[-1][1:].isdigit() else None
     by = {}
-    for crate, side, tok, rule, key, msg, loc in pending:
-        by.setdefault((crate, tok), set()).add(side)
+    for crate, side, tok, entry, t, fz, rule, key, msg, loc in pending:
+        if _count(t) is None:
+            by.setdefault((crate, tok), set()).add(side)
+    per_entry = {}
+    for crate, side, tok, entry, t, fz, rule, key, msg, loc in pending:
+        if _count(t) is not None:
+            per_entry.setdefault((entry, tok), {})[side] = (_count(t), fz)
     cancelled = 0
-    for crate, side, tok, rule, key, msg, loc in pending:
-        if len(by[(crate, tok)]) == 2:
-            cancelled += 1
-            continue
+    for crate, side, tok, entry, t, fz, rule, key, msg, loc in pending:
+        if _count(t) is None:
+            if len(by[(crate, tok)]) == 2:
+                cancelled += 1
+                continue
+        else:
+            sides = per_entry[(entry, tok)]
+            if len(sides) == 2:
+                fa_set, fs_set = sides["async-only"][1]
+                old_a = [_count(x) for x in fa_set if _uncounted(x) == tok]
+                old_s = [_count(x) for x in fs_set if _uncounted(x) == tok]
+                if len(old_a) == 1 and len(old_s) == 1 and None not in (old_a[0], old_s[0]) and \
+                        sides["async-only"][0] - old_a[0] == sides["sync-only"][0] - old_s[0]:
+                    cancelled += 1
+                    continue
         ctx.violation(rule, key, msg, loc)
     ctx.count("new_tokens_cancelled_two_sided", cancelled)
 
